@@ -18,16 +18,29 @@ def evOf (j : Json) : R Ev := do
   | e => throw s!"bad event {e}"
 
 def pcJ : PC → Json
-  | .atGet => js "atGet" | .afterEmpty => js "afterEmpty" | .done => js "done" | .failed => js "failed"
+  | .atGet => js "atGet" | .eval _ => js "inHandler" | .done => js "done" | .failed => js "failed" | .stuck => js "stuck"
 
-/-- op "realign.run": {batches:[[prio..]..], events:[..]} → final parent state of the model after the schedule -/
+def predName : Pred → String
+  | .failed => "one_failed" | .alive => "one_is_alive" | .exited => "all_exited" | .allAlive => "all_are_alive"
+
+/-- op "realign.run": {batches:[[prio..]..], events:[..]} → final parent state of the model after the schedule.
+    A `pCheck` event may name the predicate the tool polled (`pred`): `poll_mismatch` says that at some poll the model's
+    handler was at another predicate (or not inside the handler at all) -/
 def opRun (j : Json) : R Json := do
   let batches ← listOf (listOf jNat) (← fld j "batches")
-  let evs ← listOf evOf (← fld j "events")
-  let s := run (init batches) evs
+  let evJ ← (← fld j "events").getArr?
+  let evs ← evJ.toList.mapM evOf
+  let preds := evJ.toList.map (fun e => optStr e "pred")
+  let (s, mismatch) := (List.zip evs preds).foldl (fun (acc : St × Bool) (ep : Ev × Option String) =>
+    let bad := match ep.1, ep.2 with
+      | .pCheck, some name => (match acc.1.pc with
+          | .eval (.test p _ _) => predName p != name
+          | _ => true)
+      | _, _ => false
+    (step acc.1 ep.1, acc.2 || bad)) (init batches, false)
   let lost := s.ws.any (fun w => (match w.st with | .exited c => c != 0 | .running => false) && !(w.buf ++ w.todo).isEmpty)
   return obj [("pc", pcJ s.pc), ("got", jl jn s.got), ("output", jl jn (output s)), ("nsent", jn s.nSent),
-              ("lost", jb lost), ("expected", jl jn (sortNat batches.flatten))]
+              ("lost", jb lost), ("expected", jl jn (sortNat batches.flatten)), ("poll_mismatch", jb mismatch)]
 
 /-- op "realign.groups": {batch, cores, n} → the grouping of records 0..n-1 -/
 def opGroups (j : Json) : R Json := do
